@@ -119,6 +119,10 @@ func installCopy(vm *otto.Otto) {
 		v, _ := otto.ToValue(c.nid)
 		return v
 	}))
+	// Go functions bridged through reflection: what they return is converted into
+	// script values of the runtime that called them
+	must(vm.Set("hslice", func(n int) []string { return []string{"a", "b", strconv.Itoa(n)} }))
+	must(vm.Set("hpair", func(a, b int) (int, string) { return a + b, "s" }))
 	must(vm.Set("hvcall", func(call otto.FunctionCall) otto.Value {
 		v, err := call.Argument(0).Call(otto.NullValue(), call.Argument(1))
 		if err != nil {
@@ -591,6 +595,9 @@ var observeFragments = []string{
 	"for(var k in H){try{var fo=H[k];if(fo&&typeof fo==='object'&&k.slice(0,2)==='og'){var fl=[];for(var fk in fo){fl.push(fk);if(fl.length===1){fo.zz=1;delete fo.b}}rec(k+':'+fl.join()+':'+Object.keys(fo).join())}}catch(e){rec('E'+e)}}",
 	"for(var k in H){try{if(k.slice(0,2)==='mx'&&k.charAt(2)!=='c')rec(k+':'+H[k](50)+':'+H[k](7))}catch(e){rec('E'+e)}}",
 	"for(var k in H){try{if(k.slice(0,2)==='wa')rec(k+':'+H[k]()+','+H['wb'+k.slice(2)]())}catch(e){rec('E'+e)}}",
+	"try{var hs=hslice(3);rec(hs.length+':'+hs.join()+':'+(Object.getPrototypeOf(hs)===Array.prototype)+':'+Array.prototype.isPrototypeOf(hs)+':'+(hs instanceof Array))}catch(e){rec('E'+e)}",
+	"try{var hp=hpair(2,3);rec(String(hp)+':'+(hp instanceof Array)+':'+(Object.getPrototypeOf(hp)===Array.prototype))}catch(e){rec('E'+e)}",
+	"try{hpair(1)}catch(e){rec(e.name+':'+(e instanceof RangeError)+':'+(Object.getPrototypeOf(e)===RangeError.prototype))}",
 	"try{rec(typeof H.dive==='function'?H.dive(25)+':'+H.dive(3):'nodive')}catch(e){rec('E'+e)}",
 	"try{rec(H.realEval?(function(eval){var loc='local';return eval('loc')})(H.realEval)+':'+eval('loc'):'noeval')}catch(e){rec('E'+e)}",
 	"for(var k in H){try{if(k.slice(0,2)==='pa')rec(k+':'+H[k]())}catch(e){rec('E'+e)}}",
